@@ -285,6 +285,15 @@ def run_impl(case: Dict[str, Any], M, keep: bool = False, clear_caches: bool = T
             cls.append(enc440.canon_clause(t) if t else ("?", "?", str(sp)))
         out = {"kind": "NOCAND", "name": ex.req.project_name, "spec": sorted(set(cls)),
                "graph": graphenc.obs_graph(ex.results, with_bc=False) if ex.results is not None else None}
+        # the requirement chains the command line prints for this failure
+        try:
+            import req_compile.cmdline as CL
+            failing = ex.results[ex.req.name]
+            out["chains"] = sorted([n.key for n in p] for p in CL._find_paths_to_root(failing))
+        except KeyError:
+            out["chains"] = None
+        except Exception as ex2:  # noqa: BLE001
+            out["chains"] = ["ERR", graphenc.exc_class(ex2)]
         if keep:
             out["_ex"], out["_repo"] = ex, repo
     except RecursionError:
@@ -362,7 +371,12 @@ def parse_model(ans: str) -> Dict[str, Any]:
         cls = [enc440.canon_clause([rd.next(), rd.next(), rd.next()]) for _ in range(int(rd.next()))]
         assert rd.next() == "G"
         g = graphenc.parse_graph(rd, with_bc=False)
-        return {"kind": "NOCAND", "name": name, "spec": sorted(set(cls)), "graph": g}
+        out = {"kind": "NOCAND", "name": name, "spec": sorted(set(cls)), "graph": g}
+        if rd.i < len(rd.t) and rd.t[rd.i] == "CHAINS":
+            rd.next()
+            n = int(rd.next())
+            out["chains"] = None if n < 0 else sorted([unhx(rd.next()) for _ in range(int(rd.next()))] for _ in range(n))
+        return out
     if toks[0] == "FATAL":
         if toks[1] == "RecursionError":
             return {"kind": "DIVERGED"}
@@ -376,7 +390,7 @@ def canon(o: Dict[str, Any]) -> Any:
     if o["kind"] == "OK":
         return graphenc.norm_json(["OK", o["graph"], o["roots"], o.get("emitted"), o.get("explain")])
     if o["kind"] == "NOCAND":
-        return graphenc.norm_json(["NOCAND", o["name"], o["spec"], o["graph"]])
+        return graphenc.norm_json(["NOCAND", o["name"], o["spec"], o["graph"], o.get("chains")])
     if o["kind"] == "FATAL":
         return ["FATAL"]   # which internal error escapes first depends on set iteration order
     return [o["kind"]]
